@@ -241,8 +241,13 @@ func (c *Ctx) Seen(class, locus string) bool {
 	return ok
 }
 
+// Saturated reports that so many refuting observations were recorded that the verdict of this worker is settled;
+// long workloads may stop early (a broken tree can make every further case slow).
+func (c *Ctx) Saturated() bool { return c.violN >= 5000 }
+
 // Violation records a refuting observation (grouped by class+locus; first witness kept, smaller witness replaces).
 func (c *Ctx) Violation(v *Violation) {
+	c.violN++
 	v.Property = c.Prop
 	v.Seed = c.Seed
 	v.Tier = c.Tier
